@@ -6,7 +6,14 @@
 //! arguments that mutate / pop from the mutable captures; body template T: arguments of every TYPE class -
 //! by-value integer, bool, shared slice, `&mut Vec` passed as an argument and re-borrowed in the recursive
 //! calls, owned Vec / String moved in - driven by four calls between which the referenced data is mutated,
-//! replaced by short-lived temporaries and recreated), compiles them against the REAL macro with cargo -
+//! replaced by short-lived temporaries and recreated; body template E: recursive-call arguments whose type
+//! nothing but the parameter fixes - unsuffixed integer literals and shifts beyond the i32 / u32 range for
+//! parameters of every integer type, float literals, `Default::default()`, `.into()`, `.parse().unwrap()`,
+//! `Vec::new()`, `.collect()`, `None`, closures with untyped parameters - every class at every argument
+//! position; body template N: identifier collisions - the recursion named like an argument, a capture, a
+//! local, the loop variable, the closure's variable, `max` / `drop` / `Some` / `vec` / `format`, and user
+//! identifiers named like the macro's hidden helper fn and like its metavariables), compiles them against
+//! the REAL macro with cargo -
 //! once with the flags of a release build and once with debug assertions and overflow checks on, because
 //! `cfg(debug_assertions)` inside a macro is decided in the invoking crate -, runs the produced binaries and
 //! compares, per shape and per argument tuple, the return values and the final state of every capture (and
@@ -457,7 +464,7 @@ fn first_difference(sh: &Shape, out: &ShapeOut, grid: &[Tuple]) -> Option<(usize
     }
     for i in 0..grid.len() {
         if out.hand[i] == "PANIC" {
-            machinery(&format!("the hand-written reference of {} panicked on {}", sh.descriptor(), gen::tuple_text(&grid[i], sh.nargs)));
+            machinery(&format!("the hand-written reference of {} panicked on {}", sh.descriptor(), gen::tuple_text(&grid[i], sh.grid_arity())));
         }
         if out.mac[i] != out.hand[i] {
             return Some((
@@ -465,8 +472,10 @@ fn first_difference(sh: &Shape, out: &ShapeOut, grid: &[Tuple]) -> Option<(usize
                 format!(
                     "shape {} on {} {}: rec_lambda version gave {} = {} but the hand-written recursive fn gave {}",
                     sh.descriptor(),
-                    if sh.body == 'T' { "driver tuple" } else { "arguments" },
-                    if sh.body == 'T' {
+                    if sh.body == 'T' || sh.body == 'E' { "driver tuple" } else { "arguments" },
+                    if sh.body == 'E' {
+                        format!("{:?} (called twice with values of the parameter types built from the first component v: argument k gets `top(v + k)`, then `top(v + k + 7)`, see the driver in the sample / generated source)", grid[i])
+                    } else if sh.body == 'T' {
                         format!("{:?} (the closure is created once and called four times; the data behind the arguments is built from the tuple, mutated after call 1, replaced by short-lived temporaries for call 3 and recreated before call 4)", grid[i])
                     } else {
                         format!("{} (called twice: with these, then with the first argument decreased by 1)", gen::tuple_text(&grid[i], sh.nargs))
@@ -497,6 +506,9 @@ fn tier_plan(thorough: bool) -> Vec<(char, Vec<usize>)> {
 fn tier_shapes(thorough: bool) -> Vec<(usize, Shape)> {
     let mut v = gen::enumerate(&tier_plan(thorough));
     v.extend(gen::enumerate_typed(thorough));
+    // later families are appended, so that the ids of the earlier ones (recorded in replay histories) stay
+    v.extend(gen::enumerate_expected(thorough));
+    v.extend(gen::enumerate_named(thorough));
     v.into_iter().enumerate().collect()
 }
 /// Number of library crates the shapes of a build are spread over (shape id modulo this number): with the two
@@ -521,7 +533,7 @@ fn confirm(v: &Value) -> Result<(), String> {
     let sh: Shape = serde_json::from_value(v["shape"].clone()).map_err(|e| format!("bad replay: {e}")).unwrap_or_else(|e| machinery(&e));
     let thorough = v["grid"] == "thorough";
     let profile = Profile::from_json(&v["profile"]);
-    let grid = gen::grid(thorough, sh.nargs);
+    let grid = gen::grid(thorough, sh.grid_arity());
     let pkg = Pkg::new(&format!("replay_{}", profile.name()), profile, 1);
     pkg.write(&[(0, sh.clone())], thorough, true);
     let o = match run_one(&pkg, &sh, 0, &[0]) {
@@ -655,12 +667,17 @@ fn main() {
     let mut run = Run::new(&args, "lambda", "exploration");
     let thorough = args.tier == Tier::Thorough;
     let plan = tier_plan(thorough);
-    let bodies: Vec<char> = plan.iter().map(|(b, _)| *b).chain(['T']).collect();
+    let bodies: Vec<char> = plan.iter().map(|(b, _)| *b).chain(['T', 'E', 'N']).collect();
     let shapes: Vec<(usize, Shape)> = tier_shapes(thorough);
     let n_fixed: usize = plan.iter().map(|(_, a)| 31 * a.len() * 2 * 2).sum();
     let typed: Vec<&Shape> = shapes.iter().map(|(_, s)| s).filter(|s| s.body == 'T').collect();
-    if shapes.len() - typed.len() != n_fixed {
-        run.machinery_failure(&format!("enumerated {} shapes with the fixed argument types, expected {n_fixed}", shapes.len() - typed.len()));
+    let expected: Vec<&Shape> = shapes.iter().map(|(_, s)| s).filter(|s| s.body == 'E').collect();
+    let named: Vec<&Shape> = shapes.iter().map(|(_, s)| s).filter(|s| s.body == 'N').collect();
+    if shapes.len() - typed.len() - expected.len() - named.len() != n_fixed {
+        run.machinery_failure(&format!(
+            "enumerated {} shapes of the templates with the fixed argument types, expected {n_fixed}",
+            shapes.len() - typed.len() - expected.len() - named.len()
+        ));
     }
     let descriptors: BTreeSet<String> = shapes.iter().map(|(_, s)| s.descriptor()).collect();
     if descriptors.len() != shapes.len() {
@@ -721,6 +738,61 @@ fn main() {
     let typed_vectors: BTreeSet<&str> = typed.iter().map(|s| s.types.as_str()).collect();
     let typed_capture_classes: BTreeSet<(usize, usize, char)> = typed.iter().flat_map(|s| (0..s.nargs).map(move |k| (s.capture_class(), s.nargs, s.class(k)))).collect();
 
+    // non-vacuity of the expected-type family: every expression class occurs at every argument position of every
+    // argument count, also among the shapes that show more than termination
+    let classes = gen::eclasses();
+    let expected_cells = |observable_only: bool| -> BTreeSet<(usize, usize, &str)> {
+        expected
+            .iter()
+            .filter(|s| !(observable_only && s.trivially_observable()))
+            .flat_map(|s| (0..s.nargs).map(move |k| (s.nargs, k, s.exprs[k].as_str())))
+            .collect()
+    };
+    let (expected_all, expected_observable) = (expected_cells(false), expected_cells(true));
+    for nargs in 1..=4usize {
+        for k in 0..nargs {
+            for c in classes {
+                if !expected_observable.contains(&(nargs, k, c.name.as_str())) {
+                    run.machinery_failure(&format!(
+                        "expected-type family: class {} never occurs at position {} of {nargs} argument(s) in a shape with a return value or a mutable capture",
+                        c.name,
+                        k + 1
+                    ));
+                }
+            }
+        }
+    }
+    // non-vacuity of the identifier-collision family: the recursion is named like every argument position of every
+    // argument count and like every capture of every capture pattern, every argument position carries the hidden
+    // name, and every position-independent scheme occurs
+    let namings: BTreeSet<(Vec<bool>, usize, &str)> = named.iter().map(|s| (s.caps.clone(), s.nargs, s.naming.as_str())).collect();
+    let naming_occurs = |f: &dyn Fn(&(Vec<bool>, usize, &str)) -> bool| namings.iter().any(|e| f(e));
+    for nargs in 1..=4usize {
+        for k in 1..=nargs {
+            for scheme in [format!("rec:arg{k}"), format!("arg{k}:hidden")] {
+                if !naming_occurs(&|e| e.1 == nargs && e.2 == scheme) {
+                    run.machinery_failure(&format!("identifier-collision family: scheme {scheme} never occurs with {nargs} argument(s)"));
+                }
+            }
+        }
+    }
+    for caps in &patterns {
+        for p in 0..caps.len() {
+            let scheme = format!("rec:cap{p}");
+            if !naming_occurs(&|e| &e.0 == caps && e.2 == scheme) {
+                run.machinery_failure(&format!("identifier-collision family: scheme {scheme} never occurs with capture pattern {caps:?}"));
+            }
+        }
+    }
+    let plain_namings = gen::plain_namings();
+    for scheme in &plain_namings {
+        if !naming_occurs(&|e| e.2 == scheme) {
+            run.machinery_failure(&format!("identifier-collision family: scheme {scheme} never occurs"));
+        }
+    }
+    let naming_schemes: BTreeSet<&str> = named.iter().map(|s| s.naming.as_str()).collect();
+    let hidden_in_source = std::fs::read_to_string(Path::new(CRATE_PATH).join("src/lib.rs")).map(|t| t.contains(gen::HIDDEN)).unwrap_or(false);
+
     let tier_name = args.tier.name();
 
     // ---- compile and run: one package per profile, both built at the same time ----
@@ -733,7 +805,7 @@ fn main() {
     run.cov("build_wall_s_max_over_builds", (outs.iter().map(|o| o.build_wall_s).fold(0.0, f64::max) * 10.0).round() / 10.0);
     run.cov("build_and_run_wall_s", (t0.elapsed().as_secs_f64() * 10.0).round() / 10.0);
 
-    let grids: Vec<Vec<Tuple>> = (0..=4).map(|n| if n == 0 { vec![] } else { gen::grid(thorough, n) }).collect();
+    let grids: Vec<Vec<Tuple>> = (0..=4).map(|n| gen::grid(thorough, n)).collect();
     let mut evaluations = 0u64;
     let mut distinct_outcomes: BTreeSet<u64> = BTreeSet::new();
     let mut calls_macro = 0u64;
@@ -748,6 +820,8 @@ fn main() {
     let mut nontrivial_by_profile = [0u64; 2];
     let mut trivial_by_profile = [0u64; 2];
     let mut typed_run = 0u64;
+    let mut expected_run = 0u64;
+    let mut named_run = 0u64;
     // the first failing case of each family: smallest (shape id, profile)
     let mut first_compile: Option<((usize, Profile), Violation)> = None;
     let mut first_behaviour: Option<((usize, Profile), Violation)> = None;
@@ -780,7 +854,7 @@ fn main() {
             }
         }
         for (id, sh) in shapes.iter().filter(|(id, _)| !out.compile_failures.contains_key(id)) {
-            let grid = &grids[sh.nargs];
+            let grid = &grids[sh.grid_arity()];
             let mut fail = |sig: String, msg: String| {
                 total_behaviour_failures += 1;
                 if first_behaviour.as_ref().map_or(true, |(k, _)| (*id, profile) < *k) {
@@ -801,6 +875,8 @@ fn main() {
             evaluations += grid.len() as u64;
             per_ncaps[sh.caps.len()] += 1;
             typed_run += (sh.body == 'T') as u64;
+            expected_run += (sh.body == 'E') as u64;
+            named_run += (sh.body == 'N') as u64;
             calls_macro += o.calls_macro;
             calls_hand += o.calls_hand;
             early_by_profile[pi] += o.early_macro;
@@ -832,7 +908,7 @@ fn main() {
                 ));
             }
             if let Some((i, msg)) = first_difference(sh, o, grid) {
-                fail(format!("behaviour:{}@args={}{}", sh.descriptor(), gen::tuple_text(&grid[i], sh.nargs), profile.sig_suffix()), msg);
+                fail(format!("behaviour:{}@args={}{}", sh.descriptor(), gen::tuple_text(&grid[i], sh.grid_arity()), profile.sig_suffix()), msg);
             }
         }
     }
@@ -879,13 +955,24 @@ fn main() {
     run.cov("typed_(capture_pattern,argument_count,position,class)_cells_covered", typed_cells.len() as u64);
     run.cov("typed_(capture_class,argument_count,class)_cells_covered_of_80", typed_capture_classes.len() as u64);
     run.cov("argument_tuples_per_arity_1_to_4", json!(grids[1..].iter().map(|g| g.len()).collect::<Vec<_>>()));
+    run.cov("programs_with_expected_type_arguments", expected.len() as u64);
+    run.cov("expected_type_classes", json!(classes.iter().map(|c| json!({"class": c.name, "parameter_type": c.ty, "literal_only": c.literal_only, "recursive_call_arguments": c.sites.iter().chain(c.loop_sites.iter()).collect::<Vec<_>>()})).collect::<Vec<_>>()));
+    run.cov("expected_type_shift_counts_of_the_loop_sites", json!(gen::E_SHIFTS.to_vec()));
+    run.cov("expected_type_(argument_count,position,class)_cells_covered", json!({"all": expected_all.len(), "in_shapes_with_observable_results": expected_observable.len(), "of": 10 * classes.len()}));
+    run.cov("expected_type_driver_tuples", grids[0].len() as u64);
+    run.cov("programs_with_identifier_collisions", named.len() as u64);
+    run.cov("identifier_collision_schemes", json!(naming_schemes.iter().collect::<Vec<_>>()));
+    run.cov("identifier_collision_(capture_pattern,argument_count,scheme)_cells", namings.len() as u64);
+    run.cov("hidden_helper_identifier", json!({"name": gen::HIDDEN, "present_in_the_macro_source": hidden_in_source}));
+    run.cov("skipped_out_of_domain", json!({"capture_named_like_the_hidden_helper": "not generated: a block-level item shadows the enclosing function's variables, so the helper's name cannot be the name of a captured variable for any macro that declares its helper next to the closure"}));
     run.cov("exhaustive", true);
     run.cov("crate_under_test", CRATE_PATH);
     run.cov(
         "rule",
-        "every shape = (capture sequence of length 0..=4 over {&,&mut}, 1..=4 arguments, return type i64/none, recursive calls plain/trailing comma, body template; the templates and the argument counts each is emitted with are listed in body_templates_with_argument_counts: A two calls ordered by a branch, B early returns, C calls in a loop / match arm and a nested call, D argument expressions with effects — a recursive call nested in an argument of a recursive call (as a sub-expression, or as a statement of a block argument when nothing is returned), block arguments that mutate every mutable capture before yielding their value, and an argument computed from a value popped off a mutable Vec capture; D occurs in both tiers for every capture pattern, both return forms and both call syntaxes; these have the argument types i64, i64, u32, bool) plus the typed-argument family T: for every capture pattern and argument count, type vectors over the classes I by-value i64, B bool, S shared slice &[i64], M &mut Vec<i64> passed as an ARGUMENT (re-borrowed in the recursive calls, implicitly and as &mut *a), O owned Vec<i64> / String (cloned for the first recursive call, moved into the last) such that every class occurs at every argument position (five rotation vectors; further vectors — all arguments of one class, one non-integer class among integers — all in thorough, one per cell in quick), body = early return when the first argument is exhausted, then two recursive calls; the T driver creates the closure once and calls it four times, MUTATING the data behind the arguments after call 1, passing short-lived temporaries in call 3 and dropping and recreating the data before call 4, exactly as it drives the hand-written fn. Every shape is emitted as a rec_lambda! invocation and as a hand-written recursive fn with the same body, compiled against the real macro (as several library crates linked into one program) twice — without and with debug assertions / overflow checks — and run on every argument tuple of a fixed grid; an evaluation = one (shape, build, tuple) comparison of (results of all calls, every capture, every &mut argument's data). A shape is non-trivial when the reference's results differ between at least two tuples of the grid (measured, counted once per shape); shapes with neither return value nor mutable capture nor &mut argument show only termination and are excluded",
+        "every shape = (capture sequence of length 0..=4 over {&,&mut}, 1..=4 arguments, return type i64/none, recursive calls plain/trailing comma, body template; the templates and the argument counts each is emitted with are listed in body_templates_with_argument_counts: A two calls ordered by a branch, B early returns, C calls in a loop / match arm and a nested call, D argument expressions with effects — a recursive call nested in an argument of a recursive call (as a sub-expression, or as a statement of a block argument when nothing is returned), block arguments that mutate every mutable capture before yielding their value, and an argument computed from a value popped off a mutable Vec capture; D occurs in both tiers for every capture pattern, both return forms and both call syntaxes; these have the argument types i64, i64, u32, bool) plus the typed-argument family T: for every capture pattern and argument count, type vectors over the classes I by-value i64, B bool, S shared slice &[i64], M &mut Vec<i64> passed as an ARGUMENT (re-borrowed in the recursive calls, implicitly and as &mut *a), O owned Vec<i64> / String (cloned for the first recursive call, moved into the last) such that every class occurs at every argument position (five rotation vectors; further vectors — all arguments of one class, one non-integer class among integers — all in thorough, one per cell in quick), body = early return when the first argument is exhausted, then two recursive calls; the T driver creates the closure once and calls it four times, MUTATING the data behind the arguments after call 1, passing short-lived temporaries in call 3 and dropping and recreating the data before call 4, exactly as it drives the hand-written fn; plus the expected-type family E: the arguments of the recursive calls are expressions whose type NOTHING BUT THE PARAMETER fixes, so the macro version only agrees with the fn if the macro hands the parameter type down to the argument expression as a direct call does — parameter classes u8 u16 u32 u64 usize u128 i8 i16 i32 i64 isize i128 with unsuffixed-literal expressions (the largest value of the type, `!0 >> 1`, the smallest value, 2^32 written as a sum of two literals above i32::MAX, and in a loop over the shift counts expected_type_shift_counts_of_the_loop_sites `1 << (k % BITS)` and `!0 >> (k % BITS)` with a u32 variable k: values beyond the i32 / u32 range for every type that holds them), f32 / f64 with float literals (one that rounds differently to f32 directly and via f64, sums that differ between f32 and f64 arithmetic, the extreme finite values), literals nested in a tuple / Some / slice / vec!, and expressions that need the expected type to infer at all: Default::default(), .into(), .parse().unwrap(), Vec::new() / vec![], .collect(), .sum() / .product() / .max(), a String built by .into() / .collect(), None, closures with untyped parameters passed as fn(i64) -> i64 and as &dyn Fn(i64) -> i64 (all listed in expected_type_classes); for every capture pattern and argument count class vectors by rotation so that every class occurs at every argument position of every argument count (two rotations per cell with complementary (return type, call syntax) in quick, all in thorough); body = three levels of activations (a depth counter next to the shape modules, the same in both versions), the driver's activation makes 2 calls per shift count and 3 plain calls, each of those one more; the driver passes typed values built from the first tuple component; plus the identifier-collision family N (fixed argument types; body = early return, `max(..)` imported by `use std::cmp::max`, `Some(..)`, `drop(..)`, two recursive calls in a `for` loop and one after it, with a local and the loop variable in scope at the calls): the recursion is named like an argument (every position), like a captured variable (every position of every capture pattern), like the body's local, like the loop variable, like the variable the closure is bound to, like `max` / `drop` / `Some` / `vec` / `format`; an argument (every position), the local, the loop variable, the closure's variable or the recursion itself carries the name of the macro's hidden helper fn (hidden_helper_identifier); or every identifier is the name of one of the macro's metavariables (scheme meta) — the hand-written fn is called `hand` and takes the same names, so it compiles in every scheme (quick: per capture pattern and argument count one rec:arg, one rec:cap, one arg:hidden and one position-independent scheme, rotating; thorough: all). Every shape is emitted as a rec_lambda! invocation and as a hand-written recursive fn with the same body, compiled against the real macro (as several library crates linked into one program) twice — without and with debug assertions / overflow checks — and run on every argument tuple of a fixed grid; an evaluation = one (shape, build, tuple) comparison of (results of all calls, every capture, every &mut argument's data). A shape is non-trivial when the reference's results differ between at least two tuples of the grid (measured, counted once per shape); shapes with neither return value nor mutable capture nor &mut argument show only termination and are excluded",
     );
     run.assume("a shape's compile verdict is the verdict of cargo/rustc of the installed tool chain on the generated program; the generated packages are built with opt-level 0, once with debug-assertions = false / overflow-checks = false and once with both true");
+    run.assume("identifier collisions: a CAPTURED variable named like the macro's hidden helper fn is outside the family (skipped_out_of_domain): the helper is an item of the block that also holds the closure, and items shadow outer variables regardless of macro hygiene; locals, arguments, the recursion name and the closure's variable with that name are inside it");
     run.assume("all shapes of a build run one after the other on the main thread of ONE process, so state that a macro keeps per thread between invocations accumulates over the whole run (early_returns_macro_version_per_process says how many activations ended in an explicit `return`); a violation that only shows after such a history is replayed with its history");
 
     // non-vacuity
@@ -907,6 +994,9 @@ fn main() {
         if typed_run != (typed.len() * PROFILES.len()) as u64 || typed_capture_classes.len() != 80 {
             run.machinery_failure("the typed-argument family was not run completely");
         }
+        if expected_run != (expected.len() * PROFILES.len()) as u64 || named_run != (named.len() * PROFILES.len()) as u64 {
+            run.machinery_failure("the expected-type family or the identifier-collision family was not run completely");
+        }
     }
 
     // samples: macro invocations written out, with one observed result each (the last one has typed arguments)
@@ -915,10 +1005,15 @@ fn main() {
         (args.seed as usize * 13 + (2 * n_fixed) / 3 + 2) % n_fixed,
         n_fixed + (args.seed as usize * 29 + typed.len() / 2 + 3) % typed.len(),
         n_fixed + (args.seed as usize * 31 + typed.len() - 2) % typed.len(),
+        n_fixed + typed.len() + (args.seed as usize * 37 + expected.len() / 2 + 1) % expected.len(),
+        n_fixed + typed.len() + expected.len() + (args.seed as usize * 41 + named.len() / 3 + 1) % named.len(),
     ];
     for &i in &picks {
+        // of the later families, a shape that shows more than termination
+        let later_family = i >= n_fixed + typed.len();
+        let i = if later_family { (i..shapes.len()).find(|&j| !shapes[j].1.trivially_observable()).unwrap_or(i) } else { i };
         let sh = &shapes[i].1;
-        let grid = &grids[sh.nargs];
+        let grid = &grids[sh.grid_arity()];
         let obs = outs[0].run.results.get(&i).map(|o| {
             // a small tuple (first argument 2), so that the logs written out stay short
             let k = grid.iter().position(|t| t.0 == 2).unwrap_or(0);
